@@ -30,8 +30,8 @@ let shard_info = lazy (match Array.to_list Sys.argv with
 let sharded (emit : emit) =
   let i = ref 0 in
   let (sh, nsh) = Lazy.force shard_info in
-  fun case (f : bool -> string) ->
-    (if !i mod nsh = sh then emit case (f true) (f false) else emit case "" "");
+  fun (mk : unit -> string * (bool -> string)) ->
+    (if !i mod nsh = sh then (let (case, f) = mk () in emit case (f true) (f false)) else emit "" "" "");
     incr i
 let zs = Z.to_string
 
@@ -146,25 +146,34 @@ let grid_points step k f =
   done
 
 let () =
-  register "c13.grid" ~doc:"two-row programs: line advance -300..300 x operation advance 0..600, n LineEncoding tuples with line_range <= 127 (first tuple: gimli's default -5/14/1/1); instruction bytes + read-back oracle"
+  register "c13.grid" ~doc:"two-row programs: line advance -300..300 x operation advance 0..600 (every point when n > 8, every third point otherwise), n LineEncoding tuples with line_range <= 127; instruction bytes + read-back oracle"
     (fun ~seed ~n emit ->
       let lazy_emit = sharded emit in
       let r = mk_rng seed in
       for t = 0 to n - 1 do
         let (lb, lr, mil, mops, ver) = if t = 0 && seed land 1 = 1 then (-5, 14, 1, 1, 4) else pick_tuple r ~lr_lo:1 ~lr_hi:127 in
         let h = grid_hdr lb lr mil mops ver in
-        grid_points 1 t (fun ladv oadv ->
-          let ops = grid_ops mil mops ladv oadv in
-          lazy_emit (Printf.sprintf "c13.grid %d %d %d %d %d %d %d" lb lr mil mops ver ladv oadv)
-            (fun dbg -> show_res hex_of_bytes (eval_insns dbg h ops)))
+        grid_points (if n <= 8 then 3 else 1) t (fun ladv oadv ->
+          lazy_emit (fun () ->
+            let ops = grid_ops mil mops ladv oadv in
+            (Printf.sprintf "c13.grid %d %d %d %d %d %d %d" lb lr mil mops ver ladv oadv,
+             fun dbg -> show_res hex_of_bytes (eval_insns dbg h ops))))
       done);
   register "c13.gridx" ~doc:"the same grid (sub-sampled 1/7) for tuples with line_range 128..255, for which the documented precondition of LineProgram::new holds: expected = the documented behaviour (a program that reads back)"
     (fun ~seed ~n emit ->
       let r = mk_rng seed in
       for t = 0 to n - 1 do
         let (lb, lr, mil, mops, ver) =
-          if t = 0 then (-128, 250, 1, 1, 4) else if t = 1 then (-3, 200, 1, 1, 4)
-          else pick_tuple r ~lr_lo:128 ~lr_hi:255 in
+          if t = 0 then (-128, 250, 1, 1, 4)
+          else if t = n - 1 then (-3, 200, 1, 1, 4)          (* rejected by `new` in release too (F9) *)
+          else begin
+            (* tuples that release builds accept although line_range >= 128: line_base + line_range < 128 *)
+            let (_, lr, mil, mops, ver) = pick_tuple r ~lr_lo:128 ~lr_hi:255 in
+            let hi = 127 - lr in                              (* line_base in -128..hi, and > -lr *)
+            let lo = max (-128) (1 - lr) in
+            let lb = if hi < lo then lo else lo + rand_int r (hi - lo + 1) in
+            (lb, lr, mil, mops, ver)
+          end in
         grid_points 7 t (fun ladv oadv ->
           emit (Printf.sprintf "c13.gridx %d %d %d %d %d %d %d" lb lr mil mops ver ladv oadv) "ok" "ok")
       done);
@@ -261,6 +270,7 @@ let gen_script r ~clean =
       else (match rand_int r 4 with 0 -> Z.zero | 1 -> Z.of_int 0x1000 | 2 -> Z.rem (rand_z64 r) (Z.max Z.one amax)
                                   | _ -> Z.of_int (rand_int r 100000)) in
     let base = if (not clean) && rand_int r 60 = 0 then mask else base in
+    let base = if (not clean) && rand_int r 60 = 0 && asz >= 1 && asz < 8 then Z.succ mask else base in
     let cur_base = ref base in
     (match rand_int r 6 with
      | 0 -> push (Begin None); cur_base := Z.zero
@@ -333,10 +343,11 @@ let () =
   register "c13.prog" ~doc:"random multi-sequence programs: every row field, mid-sequence set_address, duplicate file/directory names, optional file fields, v2-5, both formats, string forms; 1/4 of the cases leave the documented preconditions (errors, panics)"
     (fun ~seed ~n emit ->
       let lazy_emit = sharded emit in
-      let r = mk_rng seed in
       for i = 1 to n do
-        let (h, ops) = gen_script r ~clean:(i mod 4 <> 0) in
-        lazy_emit ("c13.prog " ^ tok_script h ops) (fun dbg -> show_script (eval_script dbg h ops))
+        lazy_emit (fun () ->
+          let r = mk_rng (seed * 1000003 + i) in       (* one generator per case: a shard builds only its own cases *)
+          let (h, ops) = gen_script r ~clean:(i mod 4 <> 0) in
+          ("c13.prog " ^ tok_script h ops, fun dbg -> show_script (eval_script dbg h ops)))
       done)
 
 (* ---------------------------------------------------------------- witness families of known findings *)
